@@ -95,43 +95,52 @@ is not an `Exception`; the fault scripts inject nothing else of that kind).  The
 neither is not a failure of the request: the `ValueError` raised for a per-request `timeout` argument
 that `Timeout` rejects (`rc.badTimeout`) or for a negative `pool_timeout` (`rc.badPoolTimeout`, rejected by
 `queue.get` on a `block=True` pool) — the caller's own argument error, raised before anything is
-taken from the pool (`C01_preflight_failure_takes_nothing`, `C01_checkout_failure_takes_nothing`).  The lifting lemmas are
+taken from the pool (`C01_preflight_failure_takes_nothing`, `C01_checkout_failure_takes_nothing`) — or for a header
+value that `putheader` cannot encode (`rc.badHeader`: `UnicodeEncodeError`, a `ValueError`, raised between
+`putrequest()` and `endheaders()`; the connection that was checked out is thrown away and its slot put back by
+the `finally` clause like after any other failure: `C03_rejected_request_discards_connection` in `Props/C03.lean`;
+the invariant and the slot accounting below hold for histories with such requests as for all others).  The lifting lemmas are
 `U3.Pool.makeRequest_inv` (classes leaving `_make_request`) + `U3.Pool.request_good` (control flow of
 `urlopen`, by induction over the attempt script). -/
 theorem C01_errors_are_urllib3 (n : Nat) (block proxy : Bool) (hn : 0 < n) (ops : List Op) (rid : Nat) (rc : ReqCfg)
     (retries : Retry) (script : List Attempt) (e : Exc)
     (h : (step (run (init n block proxy) ops) (.request rid rc retries script)).2 = .result (.raised e)) :
     isUrllib3 e.cls = true ∨ isInterrupt e.cls = true ∨
-      ((rc.badTimeout = true ∨ rc.badPoolTimeout = true) ∧ e.cls = Gen.cValueError) := by
+      ((rc.badTimeout = true ∨ rc.badPoolTimeout = true ∨ rc.badHeader = true) ∧ e.cls = Gen.cValueError) := by
   have hi := run_inv ops _ (init_inv n block proxy hn)
   have g := (request_good rid 0 script _ rc retries hi (Nat.zero_le _)).2.1 e (by
     have : (step (run (init n block proxy) ops) (.request rid rc retries script)).2
         = .result (request (run (init n block proxy) ops) rid rc retries script).2 := rfl
     rw [this] at h; injection h)
-  have : ((isUrllib3 e.cls || isInterrupt e.cls) || ((rc.badTimeout || rc.badPoolTimeout) && e.cls == Gen.cValueError)) = true := g
+  have : ((isUrllib3 e.cls || isInterrupt e.cls) ||
+      ((rc.badTimeout || rc.badPoolTimeout || rc.badHeader) && e.cls == Gen.cValueError)) = true := g
   simp only [Bool.or_eq_true, Bool.and_eq_true, beq_iff_eq] at this
-  rcases this with (h1 | h2) | h3
+  rcases this with (h1 | h2) | ⟨h3, h4⟩
   · exact Or.inl h1
   · exact Or.inr (Or.inl h2)
-  · exact Or.inr (Or.inr h3)
+  · exact Or.inr (Or.inr ⟨by rcases h3 with (h3 | h3) | h3 <;> simp [h3], h4⟩)
 
 example : (match (step (run (init 1 true) []) (.request 0 {} .off [{ connect := .refused }])).2 with
     | .result (.raised e) => e.cls == Gen.cU3NewConnectionError
     | _ => false) = true := by decide
 
-/-- … in particular, with valid `timeout` and `pool_timeout` arguments every failure is a urllib3 exception or an
-interrupt -/
+example : (match (step (run (init 1 true) []) (.request 0 { badHeader := true } (.count 2) [{}, {}])) with
+    | (s, .result (.raised e)) => e.cls == Gen.cValueError && s.queue == [none]
+    | _ => false) = true := by decide
+
+/-- … in particular, with valid `timeout` and `pool_timeout` arguments and headers that can be encoded every failure
+is a urllib3 exception or an interrupt -/
 theorem C01_errors_are_urllib3_valid_timeout (n : Nat) (block proxy : Bool) (hn : 0 < n) (ops : List Op) (rid : Nat)
     (rc : ReqCfg) (retries : Retry) (script : List Attempt) (e : Exc) (hb : rc.badTimeout = false)
-    (hp : rc.badPoolTimeout = false)
+    (hp : rc.badPoolTimeout = false) (hh : rc.badHeader = false)
     (h : (step (run (init n block proxy) ops) (.request rid rc retries script)).2 = .result (.raised e)) :
     isUrllib3 e.cls = true ∨ isInterrupt e.cls = true := by
   rcases C01_errors_are_urllib3 n block proxy hn ops rid rc retries script e h with h1 | h2 | ⟨h3, _⟩
   · exact Or.inl h1
   · exact Or.inr h2
-  · rw [hb, hp] at h3; rcases h3 with h3 | h3 <;> cases h3
+  · rw [hb, hp, hh] at h3; rcases h3 with h3 | h3 | h3 <;> cases h3
 
-example : ({} : ReqCfg).badTimeout = false ∧ ({} : ReqCfg).badPoolTimeout = false ∧
+example : ({} : ReqCfg).badTimeout = false ∧ ({} : ReqCfg).badPoolTimeout = false ∧ ({} : ReqCfg).badHeader = false ∧
     (match (step (run (init 1 true) []) (.request 0 {} (.count 1)
         [{ head := some { status := 503, close := false, cl := some 0, location := false, retryAfter := true },
            wait := .invalidHeader }])).2 with
